@@ -22,7 +22,7 @@ var c01Regs []regCfg
 
 func c01BuildRegs(c *mon.Ctx, n int) {
 	g := lint.GlobalRegistry()
-	c01Regs = []regCfg{{g, "global"}, {nil, "nil"}}
+	c01Regs = []regCfg{{g, "global"}, {nil, "nil"}, {nil, "default-entry-point"}}
 	cfgs := basicConfigs()
 	rng := c.Rng(-7, 0)
 	// the full lint set under every basic configuration (a `.*` filter copies the registry)
@@ -57,6 +57,9 @@ func c01BuildRegs(c *mon.Ctx, n int) {
 
 func c01Judge(c *mon.Ctx, o *mon.Obj, rc regCfg) mon.Snap {
 	rs, pv, stack := o.Lint(rc.reg)
+	if rc.reg == nil && rc.label == "default-entry-point" {
+		rs, pv, stack = o.LintDefault()
+	}
 	c.R.Count("evaluations", 1)
 	c.R.Count("evaluations_"+o.Kind.String(), 1)
 	if pv != nil {
@@ -159,7 +162,7 @@ func init() {
 			}
 			c.R.Count("mutants_accepted", 1)
 			s := c01Judge(c, o, c01Regs[0])
-			c01Judge(c, o, c01Regs[2+rng.Intn(len(c01Regs)-2)])
+			c01Judge(c, o, c01Regs[1+rng.Intn(len(c01Regs)-1)])
 			for _, sd := range s {
 				if sd.Status > int(lint.NA) {
 					c.CountDistinct(o.DER)
